@@ -10,6 +10,8 @@ every step (no reachable node freed or zeroed, marks only of live versions, curr
 unmarked, reference counts ≥ 1), see bin/check C10.
 -/
 import Gkv.Model.Versions
+import Gkv.Proofs.VersionsFine
+import Gkv.Proofs.VersionsLeak
 open Std
 
 namespace Gkv.Props.C10
@@ -26,5 +28,39 @@ theorem invariant (F : Nat → Nat → Prop) (s : St) (hr : Reach F s) : HInv s 
 theorem live_upward_closed (F : Nat → Nat → Prop) (s : St) (hr : Reach F s) (u d : Nat)
     (h : s.refs u > 0) (hle : u + d ≤ s.N) : s.refs (u + d) > 0 :=
   live_up (reach_inv F s hr) d u h hle
+
+/-! ### marking is not atomic, and mutations may abort (`Model/VersionsFine.lean`) -/
+
+/-- the same safety when a mutation lays its marks one node at a time, interleaved with other
+    goroutines' acquire / release / load events, and may abort (read error) with
+    `reclaimMarkClear` — for every interleaving -/
+theorem recycling_safe_fine (F : Nat → Nat → Prop) (fs : Gkv.VersionsFine.FSt)
+    (hr : Gkv.VersionsFine.ReachFine F fs) :
+    ∀ w n, fs.base.refs w > 0 → fs.base.tree w n → ¬ fs.base.freed n :=
+  Gkv.VersionsFine.fine_safe F fs hr
+
+/-- an aborted mutation that clears its marks restores the full invariant (defect F4's repair) … -/
+theorem abort_restores_invariant (F : Nat → Nat → Prop) (fs : Gkv.VersionsFine.FSt)
+    (hr : Gkv.VersionsFine.ReachFine F fs) (hi : fs.inflight = true) :
+    HInv (Gkv.VersionsFine.fAbort F fs).base := Gkv.VersionsFine.abort_restores_reach F fs hr hi
+
+/-- … and without the clearing it does not: the repair is necessary -/
+theorem abort_without_clear_breaks (F : Nat → Nat → Prop) (fs : Gkv.VersionsFine.FSt)
+    (h : Gkv.VersionsFine.FInv fs) (hh : fs.base.hp fs.base.N ≥ 2) (n : Nat) (hp : fs.pending n) :
+    ¬ HInv (release F fs.base fs.base.N) := Gkv.VersionsFine.abort_without_clear_breaks F fs h hh n hp
+
+/-! ### what is, and what is not, returned to the free list (`Model/VersionsLeak.lean`) -/
+
+/-- once the last version of a closed collection is dead its whole tree has been freed -/
+theorem last_version_freed {G : St → Nat → Prop} (hG : ∀ s p, G s p → Gkv.VersionsLeak.GLive s p) {s : St}
+    (hr : Gkv.VersionsLeak.ReachG G s) (hN : s.refs s.N = 0) : ∀ n, s.tree s.N n → s.freed n :=
+  Gkv.VersionsLeak.last_version_freed hG hr hN
+
+/-- a genuine leak of the protocol (finding F11, see DESIGN.md): a node lazily loaded by a reader
+    of an OLD version underneath a node that a later mutation replaced is never freed, even after
+    every handle is closed -/
+theorem orphan_leak_exists :
+    ¬ (∀ s, Reach Gkv.VersionsLeak.FT s → (∀ v, s.refs v = 0) → ∀ n, (∃ v, s.tree v n) → s.freed n) :=
+  Gkv.VersionsLeak.all_closed_all_freed_false
 
 end Gkv.Props.C10
